@@ -8,6 +8,7 @@ use serde_json::{json, Value};
 use std::collections::BTreeSet;
 
 pub mod crash;
+pub mod fault;
 pub mod keys;
 pub mod seq;
 
@@ -184,6 +185,7 @@ pub fn replay_any(body: &Value) -> Result<Option<String>, String> {
         Some("c16") => seq::c16_replay(body),
         Some("c14") => keys::replay(body),
         Some("crash") => crash::replay(body),
+        Some("fault") => fault::replay(body),
         Some("c02-erasure") => seq::c02_erasure_replay(body),
         Some(k) => Err(format!("unknown replay kind {}", k)),
         None => Err("replay without kind".into()),
